@@ -176,7 +176,7 @@ def main(chk):
     native.build(); native.build('release')
     q = chk.tier == 'quick'
     ns = (1, 2, 3, 4) if q else (1, 2, 3, 4, 5)
-    to = 90 if q else 900
+    to = 90 if q else 300
     tf = (lambda n: 2 * n + 3) if q else (lambda n: 3 * n + 3)
     jobs = []
     J = lambda *a, **k: jobs.append((r_family, (mir,) + a + (chk.seed, to), k))
